@@ -80,7 +80,8 @@ STUBBED = ["event sources, event classes, sinks and handlers (generated)"]
 EXPECT_PROBES = ["reentrant_subscribe", "reentrant_subscribe_prio",
                  "reentrant_unsubscribe", "reentrant_raise", "halt",
                  "halt_via_event_flag",
-                 "weak_owner_died", "once_fired", "noerrors_exception",
+                 "weak_owner_died", "weak_owner_died_during_delivery",
+                 "once_fired", "noerrors_exception",
                  "plain_exception", "undeclared_rejected", "ret_remove",
                  "autobind", "unsub_handler", "unsub_eid", "unsub_tuple",
                  "unsub_eid_type", "unsub_listeners", "sub_byname",
@@ -148,8 +149,16 @@ def _g_script(r, cfg, nh, handlers, h, busy):
   for _ in range(n):
     e = {"v": r.wpick(RETS)}
     k = r.wpick([(6, None), (3 if busy else 1, "sub"), (2, "unsub"),
-                 (2, "raise"), (0.4, "clear")])
-    if k == "sub":
+                 (2, "raise"), (0.4, "clear"), (0.5, "kill")])
+    if k == "kill":
+      # the handler drops the last reference to some sink (the owner of
+      # weakly subscribed handlers that may still be due in this delivery)
+      e["do"] = {"op": "kill", "sink": r.randrange(cfg["nsink"])}
+      if r.chance(0.35):
+        # ... after sweeping the source's subscriptions away (so that the
+        # dying owner's own clean-up finds nothing left to remove)
+        e["do"]["clear_first"] = r.randrange(cfg["nsrc"])
+    elif k == "sub":
       e["do"] = _g_sub(r, cfg, nh, handlers, True)
       if r.chance(0.5) and not cfg["flat"]:
         # the interesting case: the new listener outranks the running one
@@ -304,6 +313,7 @@ class World(object):
     self.handlers = [dict(h) for h in plan.get("handlers", [])]
     self.nplan_handlers = len(self.handlers)
     self.script_pos = {}
+    self.exec_h = []
     self.stats = {}
     self.probes = {}
     self.log = []
@@ -492,11 +502,13 @@ class World(object):
       self.do_raise(st, depth)
     elif op == "clear":
       self.do_clear(st, depth)
+    elif op == "kill":
+      if depth and st.get("clear_first") is not None:
+        self.do_clear({"op": "clear", "src": st["clear_first"]}, depth)
+      self.do_kill(st, depth)
     elif depth == 0:
       if op == "autobind":
         self.do_autobind(st)
-      elif op == "kill":
-        self.do_kill(st)
       elif op == "gc":
         gc.collect()
         self.log.append(("gc",))
@@ -759,11 +771,27 @@ class World(object):
     if weak:
       self.probe("sub_weak")
 
-  def do_kill(self, st):
+  def do_kill(self, st, depth=0):
     import weakref
     k = st["sink"]
     if k >= len(self.sinks) or self.sinks[k] is None:
       return
+    if any(self.handlers[h].get("kind") == "meth"
+           and self.handlers[h]["sink"] == k for h in self.exec_h):
+      # one of its own methods is running: the frame keeps it alive
+      self.stat("kill_skipped_running")
+      return
+    if depth:
+      # the listener lists being walked right now hold the bound methods of
+      # strong subscriptions (also of ones removed meanwhile): those keep
+      # the sink alive until their delivery ends
+      for D in self.stack:
+        for X in D.snapshot:
+          hd = self.handlers[X.h]
+          if not X.weak and hd.get("kind") == "meth" and hd["sink"] == k:
+            self.stat("kill_skipped_held_by_delivery")
+            return
+      self.probe("weak_owner_died_during_delivery")
     mine = [x for x in self.live_by.values()
             if self.handlers[x.h].get("kind") == "meth"
             and self.handlers[x.h]["sink"] == k]
@@ -1011,6 +1039,7 @@ class World(object):
       self.probe("sticky_script")
     v = "none"
     X.executing += 1
+    self.exec_h.append(h)
     try:
       if entry is not None:
         v = entry.get("v", "none")
@@ -1037,10 +1066,12 @@ class World(object):
           self.probe("halt_via_event_flag")
     except Boom:
       X.executing -= 1
+      self.exec_h.pop()
       D.raised = X
       self.stat("handler_exception")
       raise
     X.executing -= 1
+    self.exec_h.pop()
     if self.violation is not None or self.aborted:
       return None
     # what the event system is expected to do with the return value
